@@ -123,6 +123,6 @@ def exec (s : Sh) : PC → Sh × Next PC
 def init (segSize : Nat) : Sh :=
   { segSize, segs := fun _ => Seg.zero, nseg := 1, head := 0, tail := 0, length := 0 }
 
-def algo : Algo := { Sh, PC, start, label, exec }
+@[reducible] def algo : Algo := { Sh, PC, start, label, exec }
 
 end GoaktVerif.Model.C04.Segmented
